@@ -35,7 +35,7 @@ BOUNDS = {
 STUBS = ["StubChangeDetector: user-defined ChangeDetector returning the given changepoints",
          "stat callable: one free real per (first row, last row) of the segment it is handed (X carries its row numbers)",
          "table scorers inside the real inner detectors"]
-ASSUMPTIONS = ["univariate data with the default RangeIndex (other containers / indexes: C11, C05)", "stat_lower <= stat_upper"]
+ASSUMPTIONS = ["univariate DataFrame input; the stub runs repeat the prediction under an offset RangeIndex and a DatetimeIndex (other containers: C11)", "stat_lower <= stat_upper"]
 OUTSIDE = ["more than 3 changepoints", "n beyond the bounds"]
 
 
@@ -115,6 +115,15 @@ def make_stub(n, k, mode="c17"):
                      (not user.is_fitted) and set(user.__dict__) == set(before) and all(user.__dict__[k_] is before[k_] for k_ in before),
                      dict(info, attrs=sorted(set(user.__dict__) ^ set(before))), eng=eng)
         acc.concrete("clone_is_a_different_fitted_object", an.change_detector_ is not user and an.change_detector_.is_fitted, info, eng=eng)
+        # the same data under other supported indexes must give the same anomalies
+        for kind, idx in (("range5", pd.RangeIndex(5, 5 + n)), ("datetime", pd.date_range("2022-01-01", periods=n, freq="D"))):
+            Xi = pd.DataFrame({"x": np.arange(n, dtype=float)}, index=idx)
+            try:
+                an2 = StatThresholdAnomaliser(StubChangeDetector(cpts=tuple(cc)), stat=seg_stat, stat_lower=SymReal(lo), stat_upper=SymReal(hi)).fit(Xi)
+                got2 = [(int(i.left), int(i.right)) for i in an2.predict(Xi)["ilocs"]]
+            except Exception as ex:
+                got2 = f"{type(ex).__name__}: {ex}"[:120]
+            acc.concrete("same_anomalies_under_other_index", got2 == want, dict(info, cpts=cc, index=kind, got=got2, want=want), eng=eng)
         acc.add_to("outputs", (tuple(cc), tuple(got)))
         acc.sample(dict(info, cpts=cc, anomalies=got))
 
@@ -256,6 +265,17 @@ def replay(cx):
     b = [0] + list(cc) + [n]
     want = [(s, e) for s, e in zip(b[:-1], b[1:]) if env.get(f"st_{s}_{e - 1}", 0.0) < lo or env.get(f"st_{s}_{e - 1}", 0.0) > hi]
     bad = problems_anomalies(out, n, min_len=1)
+    if info.get("index") and inner == "stub":
+        idx = pd.RangeIndex(5, 5 + n) if info["index"] == "range5" else pd.date_range("2022-01-01", periods=n, freq="D")
+        Xi = pd.DataFrame({"x": np.arange(n, dtype=float)}, index=idx)
+        with proxy.native():
+            try:
+                o2 = StatThresholdAnomaliser(StubChangeDetector(cpts=tuple(cc)), stat=_num_stat(env), stat_lower=lo, stat_upper=hi).fit(Xi).predict(Xi)
+                g2 = [(int(i.left), int(i.right)) for i in o2["ilocs"]]
+            except Exception as ex:
+                g2 = f"{type(ex).__name__}: {ex}"[:120]
+        if g2 != want:
+            bad.append(f"with a {info['index']} index: reported {g2}, expected {want}")
     if got != want:
         bad.append(f"changepoints {cc}, segment statistics { {k: v for k, v in env.items() if k.startswith('st_')} }, bounds [{lo}, {hi}]: reported {got}, expected {want}")
     if user.is_fitted:
